@@ -493,16 +493,20 @@ def rotatedManifest (cfg : Cfg) (req : Req) (m0 : Manifest) : Manifest :=
 theorem gcsFinalize_spec (hca : cfg.ca = .gcsca) (hb1 : cfg.bump m0.signing ≠ m0.signing)
     (hb2 : cfg.bump m0.signing ≠ "") (req : Req) (mat : Nat) (mu : Mut)
     (hmr : mu.primaryRoot = none) (hms : mu.primarySigning = some (cfg.bump m0.signing)) (hmc : mu.rootCert = none)
-    (ht1 : target cfg req m0 ≠ manifestName) (ht2 : target cfg req m0 ≠ cfg.rootPath)
-    (ht3 : target cfg req m0 ≠ path0) :
-    Tr sc cfg.overwrite (Ph cfg m0 r c0 path0 true (some (cfg.bump m0.signing, mat)))
+    (ht1 : target cfg req m0 ≠ manifestName) (ht2 : target cfg req m0 ≠ cfg.rootPath) :
+    Tr sc (cfg.overwrite && !claimed cfg req m0) (Ph cfg m0 r c0 path0 true (some (cfg.bump m0.signing, mat)))
       (gcsFinalize cfg mu [(cfg.bump m0.signing, ⟨req.cn, req.serial, mat, r.pub⟩)])
-      (fun _ s => PhD cfg m0 r c0 (rotatedManifest cfg req m0) ⟨req.cn, req.serial, mat, r.pub⟩ (target cfg req m0) .ok s)
+      (fun _ s => claimed cfg req m0 = false ∧
+        PhD cfg m0 r c0 (rotatedManifest cfg req m0) ⟨req.cn, req.serial, mat, r.pub⟩ (target cfg req m0) .ok s)
       (SafeN cfg) := by
+  refine Triple.have_fact (φ := lookup m0.entries m0.signing = some path0) (fun s h => h.inv.entry) ?_
+  intro hm0e
   -- abbreviations
+  have hclD : claimed cfg req m0 = heldByOther m0 (target cfg req m0) (cfg.bump m0.signing) := rfl
   generalize hK : cfg.bump m0.signing = K at *
   generalize hC : (⟨req.cn, req.serial, mat, r.pub⟩ : Cert) = C at *
   have hKs : K ≠ m0.signing := hb1
+  have hcl : heldByOther { m0 with signing := K } (target cfg req m0) K = claimed cfg req m0 := hclD.symm
   have hm2 : applyPrimaries mu m0 = { m0 with signing := K } := by
     unfold applyPrimaries setRoot setSigning
     rw [hmr, hms]
@@ -520,6 +524,25 @@ theorem gcsFinalize_spec (hca : cfg.ca = .gcsca) (hb1 : cfg.bump m0.signing ≠ 
   · intro s h
     exact ⟨h.inv.transfer rfl rfl, rfl, h.nd, h.key K mat rfl, fun _ _ e => by cases e⟩
   intro _
+  by_cases hcd : claimed cfg req m0 = true
+  · -- the target object is recorded for another key version: upload refuses before any storage call
+    refine Triple.bind (Q1 := fun _ _ => False) ?_ (fun _ => Triple.unreach (fun _ h => h))
+    show Triple sc _ (upload cfg K C >>= fun _ => uploadAll cfg []) _ _ _
+    refine Triple.bind (Q1 := fun _ _ => False) ?_ (fun _ => Triple.unreach (fun _ h => h))
+    unfold upload
+    refine Triple.getSt_bind ?_
+    intro s0 h0
+    rw [h0.cache]
+    show Triple sc _ (if heldByOther { m0 with signing := K } (uploadName cfg { m0 with signing := K } K C) K = true then throw
+      else _) _ _ _
+    rw [hT, hcl, if_pos hcd]
+    exact Triple.throw (fun s hs => by subst hs; exact ⟨h0.safeN hca, Or.inr (by simp [hcd])⟩)
+  have hcf : claimed cfg req m0 = false := by simpa using hcd
+  have ht3 : target cfg req m0 ≠ path0 := by
+    intro e
+    apply hcd
+    have hh : heldByOther m0 path0 K = true := heldByOther_of_lookup (kvn := K) hm0e (Ne.symm hKs)
+    rw [← hcl, e]; exact hh
   -- uploadAll [(K, C)]
   refine Triple.bind (Q1 := fun _ s => PhF cfg m0 r c0 path0 K mat (withEntry { m0 with signing := K } K (target cfg req m0)) (some (target cfg req m0, C)) s) ?_ ?_
   · show Triple sc _ (upload cfg K C >>= fun _ => uploadAll cfg []) _ _ _
@@ -528,8 +551,9 @@ theorem gcsFinalize_spec (hca : cfg.ca = .gcsca) (hb1 : cfg.bump m0.signing ≠ 
     refine Triple.getSt_bind ?_
     intro s0 h0
     rw [h0.cache]
-    show Triple sc _ (writeIfAllowed cfg (uploadName cfg { m0 with signing := K } K C) (.der C) >>= fun _ => _) _ _ _
-    rw [hT]
+    show Triple sc _ (if heldByOther { m0 with signing := K } (uploadName cfg { m0 with signing := K } K C) K = true then throw
+      else (writeIfAllowed cfg (uploadName cfg { m0 with signing := K } K C) (.der C) >>= fun _ => _)) _ _ _
+    rw [hT, hcl, if_neg hcd]
     refine Triple.pre (P := PhF cfg m0 r c0 path0 K mat { m0 with signing := K } none) ?_ (fun s hs => by subst hs; exact h0)
     refine Triple.bind (Q1 := fun _ s => PhF cfg m0 r c0 path0 K mat { m0 with signing := K } (some (target cfg req m0, C)) s) ?_ ?_
     · unfold writeIfAllowed
@@ -539,7 +563,7 @@ theorem gcsFinalize_spec (hca : cfg.ca = .gcsca) (hb1 : cfg.bump m0.signing ≠ 
       by_cases hex : (ex && !cfg.overwrite) = true
       · rw [if_pos hex]
         refine Triple.throw (fun s h => ⟨h.safeN hca, Or.inr ?_⟩)
-        simp at hex; exact hex.2
+        simp at hex; simp [hex.2]
       · rw [if_neg hex]
         refine Triple.bind (Q1 := fun _ s => PhF cfg m0 r c0 path0 K mat { m0 with signing := K } (some (target cfg req m0, C)) s) ?_ (fun _ => Triple.pure _ (fun _ h => h))
         refine writeFile_spec (Q' := fun _ s => PhF cfg m0 r c0 path0 K mat { m0 with signing := K } (some (target cfg req m0, C)) s)
@@ -581,8 +605,8 @@ theorem gcsFinalize_spec (hca : cfg.ca = .gcsca) (hb1 : cfg.bump m0.signing ≠ 
   have hrm : rotatedManifest cfg req m0 = withEntry { m0 with signing := K } K (target cfg req m0) := by
     unfold rotatedManifest; rw [hK]
   rw [hrm]
-  refine writeFile_spec (Q' := fun f s => PhD cfg m0 r c0 (withEntry { m0 with signing := K } K (target cfg req m0)) C (target cfg req m0) f s)
-    manifestName _ PhF.stable (fun _ h => h.safeN hca) ?_ (fun _ _ h => h.safeN hca)
+  refine (writeFile_spec (Q' := fun f s => PhD cfg m0 r c0 (withEntry { m0 with signing := K } K (target cfg req m0)) C (target cfg req m0) f s)
+    manifestName _ PhF.stable (fun _ h => h.safeN hca) ?_ (fun _ _ h => h.safeN hca)).post (fun _ _ h => ⟨hcf, h⟩)
   intro s f h
   have hobj := h.obj _ _ rfl
   refine ⟨⟨lookup_cons_self _ _ _, ?_, ?_, ?_, ?_, ?_, ?_, ?_, ?_, ?_, ht1, h.inv.rm, ?_⟩, h.inv.kprim, h.nd.snoc (nd_stC _) f, ?_⟩
@@ -611,28 +635,28 @@ theorem gcsFinalize_spec (hca : cfg.ca = .gcsca) (hb1 : cfg.bump m0.signing ≠ 
 theorem caFinalize_spec (hca : cfg.ca = .gcsca) (hb1 : cfg.bump m0.signing ≠ m0.signing)
     (hb2 : cfg.bump m0.signing ≠ "") (req : Req) (mat : Nat) (mu : Mut)
     (hmr : mu.primaryRoot = none) (hms : mu.primarySigning = some (cfg.bump m0.signing)) (hmc : mu.rootCert = none)
-    (ht1 : target cfg req m0 ≠ manifestName) (ht2 : target cfg req m0 ≠ cfg.rootPath)
-    (ht3 : target cfg req m0 ≠ path0) :
-    Tr sc cfg.overwrite (Ph cfg m0 r c0 path0 true (some (cfg.bump m0.signing, mat)))
+    (ht1 : target cfg req m0 ≠ manifestName) (ht2 : target cfg req m0 ≠ cfg.rootPath) :
+    Tr sc (cfg.overwrite && !claimed cfg req m0) (Ph cfg m0 r c0 path0 true (some (cfg.bump m0.signing, mat)))
       (caFinalize cfg mu [(cfg.bump m0.signing, ⟨req.cn, req.serial, mat, r.pub⟩)])
-      (fun _ s => PhD cfg m0 r c0 (rotatedManifest cfg req m0) ⟨req.cn, req.serial, mat, r.pub⟩ (target cfg req m0) .ok s)
+      (fun _ s => claimed cfg req m0 = false ∧
+        PhD cfg m0 r c0 (rotatedManifest cfg req m0) ⟨req.cn, req.serial, mat, r.pub⟩ (target cfg req m0) .ok s)
       (SafeN cfg) := by
   unfold caFinalize; rw [hca]
   exact Tr.wrap (P' := Ph cfg m0 r c0 path0 true (some (cfg.bump m0.signing, mat))) .caFin
     (fun s f h => Ph.stable _ _ s _ f nd_caFin h)
     (fun s h => (Ph.stable _ _ s _ _ nd_caFin h).safeN hca)
-    (gcsFinalize_spec hca hb1 hb2 req mat mu hmr hms hmc ht1 ht2 ht3) (fun _ s h => h.safeN hca)
+    (gcsFinalize_spec hca hb1 hb2 req mat mu hmr hms hmc ht1 ht2) (fun _ s h => h.2.safeN hca)
 
 theorem caFinalize_spec_safe (hca : cfg.ca = .gcsca) (hb1 : cfg.bump m0.signing ≠ m0.signing)
     (hb2 : cfg.bump m0.signing ≠ "") (req : Req) (mat : Nat) (mu : Mut)
     (hmr : mu.primaryRoot = none) (hms : mu.primarySigning = some (cfg.bump m0.signing)) (hmc : mu.rootCert = none)
-    (ht1 : target cfg req m0 ≠ manifestName) (ht2 : target cfg req m0 ≠ cfg.rootPath)
-    (ht3 : target cfg req m0 ≠ path0) :
-    Tr sc cfg.overwrite (Ph cfg m0 r c0 path0 true (some (cfg.bump m0.signing, mat)))
+    (ht1 : target cfg req m0 ≠ manifestName) (ht2 : target cfg req m0 ≠ cfg.rootPath) :
+    Tr sc (cfg.overwrite && !claimed cfg req m0) (Ph cfg m0 r c0 path0 true (some (cfg.bump m0.signing, mat)))
       (caFinalize cfg mu [(cfg.bump m0.signing, ⟨req.cn, req.serial, mat, r.pub⟩)])
-      (fun _ s => PhD cfg m0 r c0 (rotatedManifest cfg req m0) ⟨req.cn, req.serial, mat, r.pub⟩ (target cfg req m0) .ok s)
+      (fun _ s => claimed cfg req m0 = false ∧
+        PhD cfg m0 r c0 (rotatedManifest cfg req m0) ⟨req.cn, req.serial, mat, r.pub⟩ (target cfg req m0) .ok s)
       (Safe cfg) :=
-  Tr.weaken (caFinalize_spec hca hb1 hb2 req mat mu hmr hms hmc ht1 ht2 ht3)
+  Tr.weaken (caFinalize_spec hca hb1 hb2 req mat mu hmr hms hmc ht1 ht2)
     (fun _ h => h) (fun _ _ h => h) (fun _ h => h.safe)
 
 /-- go: DestroyKeyVersion of the old primary, after the commit -/
@@ -677,10 +701,9 @@ theorem rotatedManifest_root (req : Req) : (rotatedManifest cfg req m0).root = m
     invariant; every log satisfies destroy-after-commit; a crash needs a fault, an error needs a fault
     or overwrite = false. -/
 theorem rotateKey_gcs (hca : cfg.ca = .gcsca) (hb : BumpOK cfg) (req : Req)
-    (ht1 : target cfg req m0 ≠ manifestName) (ht2 : target cfg req m0 ≠ cfg.rootPath)
-    (ht3 : target cfg req m0 ≠ path0) :
-    Tr sc cfg.overwrite (Ph cfg m0 r c0 path0 false none) (rotateKey cfg req)
-      (fun kv s => kv = cfg.bump m0.signing ∧ ∃ mat, InvG cfg (rotatedManifest cfg req m0) r
+    (ht1 : target cfg req m0 ≠ manifestName) (ht2 : target cfg req m0 ≠ cfg.rootPath) :
+    Tr sc (cfg.overwrite && !claimed cfg req m0) (Ph cfg m0 r c0 path0 false none) (rotateKey cfg req)
+      (fun kv s => kv = cfg.bump m0.signing ∧ claimed cfg req m0 = false ∧ ∃ mat, InvG cfg (rotatedManifest cfg req m0) r
         ⟨req.cn, req.serial, mat, r.pub⟩ (target cfg req m0) s ∧ DAC cfg s.log)
       (Safe cfg) := by
   unfold rotateKey
@@ -722,8 +745,10 @@ theorem rotateKey_gcs (hca : cfg.ca = .gcsca) (hb : BumpOK cfg) (req : Req)
   rw [hmu2]
   show Triple sc _ (caFinalize cfg _ mu.certs >>= fun _ => _) _ _ _
   rw [hmu.1, hc]
-  refine Triple.bind (caFinalize_spec_safe hca (hb.1 _) (hb.2 _) req mat _ hmu.2.1 rfl hmu.2.2.2 ht1 ht2 ht3) ?_
+  refine Triple.bind (caFinalize_spec_safe hca (hb.1 _) (hb.2 _) req mat _ hmu.2.1 rfl hmu.2.2.2 ht1 ht2) ?_
   intro _
+  refine Triple.of_fact ?_
+  intro hcf
   refine Triple.bind (Q1 := fun _ s => InvG cfg (rotatedManifest cfg req m0) r ⟨req.cn, req.serial, mat, r.pub⟩ (target cfg req m0) s ∧ DAC cfg s.log) ?_ ?_
   · unfold destroyOld
     refine Triple.ite (fun _ => ?_) (fun hne => Triple.unreach (fun s h => ?_))
@@ -731,7 +756,7 @@ theorem rotateKey_gcs (hca : cfg.ca = .gcsca) (hb : BumpOK cfg) (req : Req)
         (by rw [rotatedManifest_root]; exact Ne.symm hst.1)
     · exact hne hst.2
   intro _
-  exact Triple.pure _ (fun s h => ⟨rfl, mat, h⟩)
+  exact Triple.pure _ (fun s h => ⟨rfl, hcf, mat, h⟩)
 
 end gcs
 
